@@ -1,21 +1,21 @@
 CONSTANTS
-  TTLs <- T13
-  Horizon = 6
-  MaxChanges = 2
-  MaxQueries = 4
-  SignedSet <- Bools
+  TTLs <- TLong
+  Horizon = 90000
+  MaxChanges = 1
+  MaxQueries = 3
+  SignedSet <- OnlyF
   ChildSet <- ChildLong
-  ChildTTLs <- TTLBoth
+  ChildTTLs <- TTLDay
   DeepSet <- OnlyF
   ValDelays <- NoDelay
   FloorWins = FALSE
   SelfRefReanchors = FALSE
   Ceil = 43200
-  Jumps <- NoJumps
-  RealTime = TRUE
+  Jumps <- JLong
+  RealTime = FALSE
   CeilOnCut = TRUE
   CeilOnStore = TRUE
 INIT Init
 NEXT Next
-INVARIANTS TypeOK FollowsParent LeaseWithinGrant
+INVARIANTS TypeOK NeverStaleWindow
 CHECK_DEADLOCK FALSE
